@@ -39,6 +39,23 @@ SEPS = [";", "; ", " ;", ";\n", ";;", "; ;", " ; ; ", ";\t"]
 ODD = ["ſelect 1", "DEſCRIBE t", "EXPLAıN SELECT 1", "SELECT\u00a01", "ＳＥＬＥＣＴ 1", "S\u200bELECT 1", "select/**/1", "SELECT(1)", "(SELECT 1)", ".shell id", ".read x.sql", ".dump", "1", "", " ", "SELECT", "WITH", "EXPLAIN", "SELECT 1 INTO x FROM t", "SELECT into_col FROM t", "SELECT 1 -- ; \n; DELETE FROM t"]
 
 
+# delimiters that quote in *other* SQL dialects (PostgreSQL dollar quoting and E'' strings, Oracle q'[]', MySQL '#' comments,
+# nested comments) or are bind parameters in SQLite: SQLite executes what stands between them
+PSEUDO = [("$$", "$$"), ("$a$", "$a$"), ("$q_1$", "$q_1$"), ("?", "?"), ("?1", "?1"), (":x", ":x"), ("@v", "@v"), ("# ", "\n"), ("/* /* */", "*/"), ("E'\\'", "'"), ("q'[", "]'"),
+          ("{", "}"), ("<<", ">>"), ("N'", "'"), ("x'", "'"), ("$$ --", "\n$$"), ("U&'", "'")]
+
+
+def gen_pseudo(r):
+    o, c = r.pick(PSEUDO)
+    w = gen_stmt(r, write=True)
+    k = r.randrange(3)
+    if k == 0:
+        return "SELECT %s%s%s%sSELECT %s" % (o, r.pick(SEPS), w, r.pick(SEPS), c)
+    if k == 1:
+        return "SELECT %s AS x; %s; --%s" % (o, w, c)
+    return "SELECT 1 %s; %s %s" % (o, w, c)
+
+
 def flip_case(r, s):
     return "".join(c.upper() if r.chance(0.3) else c.lower() if r.chance(0.3) else c for c in s)
 
@@ -58,6 +75,8 @@ def gen_sql(r):
     k = r.random()
     if k < 0.08:
         return r.pick(ODD)
+    if k < 0.16:
+        return gen_pseudo(r)
     parts = []
     n = 1 if r.chance(0.55) else r.randint(2, 3)
     for i in range(n):
